@@ -142,6 +142,73 @@ def runFile (full : Bool) (exp : String) (acct : Option Bytes) (ffs : List Strin
       | some a => renderKey full (getKey P a f pwb)
     verdict m go (specAccepts exp go full) why
 
+/-! ### unlock-state histories: replayed with `KsState.step` on stand-in primitives
+
+  `hist <key32> <tok;tok;...>` -> observations joined by `|`.  Tokens: U<r|w><i|t> Unlock / TimedUnlock with the right / a wrong
+  passphrase, L Lock, X expiry observed, S SignHash, T SignTx, W<r|w> SignHashWithPassphrase, E<r|w> Export, P<r|w> Update.
+  The cryptography is a STAND-IN (Keccak-based KDF / keystream / address): what is compared is the state machine — which key
+  sits in the unlocked table after which history — driven through the model's own getKey / encryptKey. -/
+
+def histP : Prims where
+  kdf := fun req => match req with
+    | .scrypt pw salt _ _ _ _ => .ok (Keccak.keccak256 (pw ++ [0] ++ salt)) 32
+    | .pbkdf2 pw salt _ _ => .ok (Keccak.keccak256 (pw ++ [1] ++ salt)) 32
+  H := Keccak.keccak256
+  ks := fun k iv i => (Keccak.keccak256 (k ++ iv)).getD (i % 32) 0
+  cbc := fun _ _ c => c
+  addrOf := fun d => (Keccak.keccak256 (beBytes d)).drop 12
+
+def histPass (n : Nat) : Bytes := ascii s!"p{n}"
+def histWrong : Bytes := ascii "x"
+
+def histFile (d n : Nat) : Option KeyFile :=
+  match encryptKey histP d (histP.addrOf d) [] (histPass n) (beBytes (n + 1) ++ [7]) (List.replicate 16 (UInt8.ofNat n)) 2 1 with
+  | .ok f => some f
+  | _ => none
+
+structure HistSt where
+  s : KsState
+  n : Nat          -- index of the current passphrase
+  out : List String
+
+def histStep (d : Nat) (a : Bytes) (st : HistSt) (tok : String) : HistSt :=
+  let okErr (r : Option (Res Key)) : String := match r with | some (.ok _) => "ok" | _ => "err"
+  let cur := histPass st.n
+  let pwOf (c : Char) : Bytes := if c == 'r' then cur else histWrong
+  let emit (o : String) (s' : KsState) : HistSt := { st with s := s', out := o :: st.out }
+  let file := st.s.store a
+  match tok.toList with
+  | ['U', c, t] =>
+    let pw := pwOf c
+    emit (okErr (file.map (fun f => getKey histP a f pw))) (st.s.step histP (.unlock a pw (t == 't')))
+  | ['L'] => emit "-" (st.s.step histP (.lock a))
+  | ['X'] => emit "-" (st.s.step histP (.lock a))
+  | ['S'] | ['T'] =>
+    match st.s.signingKey a with
+    | none => emit "locked" st.s
+    | some k => emit (if k.d == d && k.addr == a then "ok" else "bad") st.s
+  | ['W', c] | ['E', c] =>
+    let r := file.map (fun f => getKey histP a f (pwOf c))
+    emit (match r with | some (.ok k) => if k.d == d then "ok" else "bad" | _ => "err") st.s
+  | ['P', c] =>
+    let pw := pwOf c
+    match file.map (fun f => getKey histP a f pw), histFile d (st.n + 1) with
+    | some (.ok _), some fNew =>
+      let s' := st.s.step histP (.update a pw (histPass (st.n + 1)) fNew)
+      { s := s', n := st.n + 1, out := "ok" :: st.out }
+    | _, _ => emit "err" st.s
+  | _ => emit "?" st.s
+
+def runHist (dHex ops : String) : String :=
+  let d := beNat (hexB dHex)
+  let a := histP.addrOf d
+  match histFile d 0 with
+  | none => "no-file"
+  | some f0 =>
+    let s0 : KsState := ⟨fun x => if x == a then some f0 else none, fun _ => none⟩
+    let fin := (splitC ops ';').foldl (histStep d a) ⟨s0, 0, []⟩
+    "|".intercalate fin.out.reverse
+
 def handle (l : String) : String :=
   let (inp, go) := splitCase l
   match fields inp with
@@ -163,6 +230,7 @@ def handle (l : String) : String :=
       | [pw, kdfO, ksO, cbcO, adO] => runFile false exp (some (hexB acct)) (rest.take 12) pw kdfO ksO cbcO adO go
       | _ => "bad-op\tspec-ok"
     else "bad-op\tspec-ok"
+  | ["hist", d, ops] => verdict (runHist d ops) go false "unlock-history-observation-differs-from-model"
   | ["enc", d, addr, id, pw, salt, iv, n, p, kdfO, ksO] =>
     let P := mkPrims kdfO ksO "-" "-"
     let m := match encryptKey P (beNat (hexB d)) (hexB addr) (hexB id) (hexB pw) (hexB salt) (hexB iv) ((n.toInt?).getD 0) ((p.toInt?).getD 0) with
